@@ -47,6 +47,9 @@ func aes128CtrDecrypt(key []byte, iv []byte, ciphertext []byte) ([]byte, error) 
 	if err != nil {
 		return nil, fmt.Errorf("AES initialization failed: %s", err)
 	}
+	if len(iv) != block.BlockSize() {
+		return nil, fmt.Errorf("invalid IV length %d (must be %d)", len(iv), block.BlockSize())
+	}
 
 	plaintext := make([]byte, len(ciphertext))
 	stream := cipher.NewCTR(block, iv)
